@@ -11,6 +11,8 @@ import json
 import math
 import warnings
 
+import re
+
 import numpy as np
 
 import dask
@@ -1043,6 +1045,57 @@ def replay(path):
         print("impl now:", int(getattr(da, d["fn"])(x, split_every=se).compute()), "numpy:", int(getattr(np, d["fn"])(a)))
 
 
+def fam_indexed_keepdims(chk, da, tier):
+    """an index applied to the result of a reduction that KEEPS its reduced axis (keepdims=True, topk / argtopk with k > 1): the slice
+    pushed through the reduction must select what indexing the computed result selects, for every chunking and fan-in"""
+    import random as _random
+    import warnings as _w
+    rng = _random.Random(f"C18-indexed-keepdims-{chk.seed}")
+    for it in range(1500 if tier == "thorough" else 160):
+        rows, cols = rng.choice([4, 6, 7]), rng.choice([8, 12, 16])
+        a = np.random.RandomState(rng.randrange(2 ** 31)).permutation(rows * cols).reshape(rows, cols).astype("f8")
+        chunks = (rng.choice([1, 2, 3, rows]), rng.choice([2, 4, 5, cols]))
+        se = rng.choice([None, 2, 3])
+        ax = rng.choice([0, 1])
+        kind = rng.choice(["topk", "topk", "topk-neg", "argtopk", "sum-keepdims", "max-keepdims"])
+        k = rng.choice([2, 3])
+        with _w.catch_warnings():
+            _w.simplefilter("ignore")
+            x = da.from_array(a, chunks=chunks)
+            if kind == "topk":
+                t, full = da.topk(x, k, axis=ax, split_every=se), np.flip(np.sort(a, axis=ax), axis=ax).take(range(k), axis=ax)
+            elif kind == "topk-neg":
+                t, full = da.topk(x, -k, axis=ax, split_every=se), np.sort(a, axis=ax).take(range(k), axis=ax)
+            elif kind == "argtopk":
+                t, full = da.argtopk(x, k, axis=ax, split_every=se), np.flip(np.argsort(a, axis=ax), axis=ax).take(range(k), axis=ax)
+            elif kind == "sum-keepdims":
+                t, full = x.sum(axis=ax, keepdims=True, split_every=se), a.sum(axis=ax, keepdims=True)
+            else:
+                t, full = x.max(axis=ax, keepdims=True, split_every=se), a.max(axis=ax, keepdims=True)
+            n_red = full.shape[ax]
+            n_oth = full.shape[1 - ax]
+            on_red = rng.choice([rng.randrange(-n_red, n_red), slice(None), slice(0, n_red), slice(None, None, -1)])
+            lo = rng.randrange(0, n_oth - 1)
+            on_oth = rng.choice([slice(lo, rng.randrange(lo + 1, n_oth + 1)), rng.randrange(-n_oth, n_oth), slice(None), slice(n_oth // 2, None)])
+            idx = (on_red, on_oth) if ax == 0 else (on_oth, on_red)
+            try:
+                got = t[idx].compute(scheduler="sync")
+                err = None
+            except Exception as e:  # noqa: BLE001
+                got, err = None, type(e).__name__ + ": " + str(e)[:80]
+        want = full[idx]
+        desc = {"fn": kind, "k": k, "axis": ax, "split_every": se, "shape": (rows, cols), "chunks": chunks, "index": repr(idx)}
+        chk.count("indexed-keepdims:" + kind)
+        chk.case(("indexed-keepdims", kind, k, ax, se, rows, cols, chunks, repr(idx)), nontrivial=True, sample=desc if it < 2 else None)
+        if err is not None:
+            chk.violation(f"indexing the result of {kind} raises {err}", desc, signature={"fn": kind, "class": "indexed-result-raises", "error": re.sub(r"[0-9]+", "#", err)[:40]})
+        elif np.shape(got) != np.shape(want) or not np.array_equal(got, want):
+            chk.violation(f"{kind}(...)[index] differs from indexing the computed result", {**desc, "got": np.asarray(got).tolist(), "want": np.asarray(want).tolist()},
+                          signature={"fn": kind, "class": "indexed-result-value"})
+        else:
+            chk.traces_validated += 1
+
+
 def run(chk: Check):
     import dask_array as da
     import dask_array.reductions._reduction as R
@@ -1065,3 +1118,4 @@ def run(chk: Check):
     fam_slices(chk, R, da, chk.tier)
     fam_malformed(chk, da, chk.tier)
     fam_public(chk, da, chk.tier)
+    fam_indexed_keepdims(chk, da, chk.tier)
